@@ -700,7 +700,7 @@ func getContentListToken(token Token, baseUrl string) (pr.ContentProperty, error
 		var str string
 		switch arg := arg_.(type) {
 		case pa.Ident:
-			switch arg.Value {
+			switch utils.AsciiLower(arg.Value) {
 			case "dotted":
 				str = "."
 			case "solid":
